@@ -67,6 +67,8 @@ def check(repo, col, tier):
     col.rule("R-C11-pairing", "stimuli / clamps given through a view stay attached to the rows of that view", 3)
     from . import c08
     c08._pairing(repo, col, "R-C11-pairing")
+    col.rule("R-C11-labels", "a table of a view that is re-derived from itself keeps its row labels", 3)
+    table_labels(repo, col, "R-C11-labels")
     col.rule("R-C11-chain", "every link of a selection chain derives its view from the view it is called on", 8)
     derived_from_receiver(repo, col, "R-C11-chain")
     # recording through a view adds exactly (row, state) pairs: another state of a row already recorded is a new recording (shared with C08/C19)
@@ -1455,3 +1457,49 @@ def select_expansion(repo, col, R):
                         f"own order (`select(nodes=[0, 0, 2, 2])` has four rows); only the string 'all' stands for the rows in view", node=x.node or fi.node)
             else:
                 col.unk(R, fi, f"select: only the index 'all' is replaced by every {which[:-1]} in view", f"condition {c.short(100)}", node=x.node or fi.node)
+
+
+def table_labels(repo, col, R):
+    """The row labels of a view's tables ARE the global row numbers (`self.edges.index` is `self._edges_in_view`): `set`, `make_trainable`
+    and every child view address the base through them.  A method that re-derives `self.nodes` / `self.edges` from the table itself must
+    keep them: `join`, `rename`, `assign`, `drop(columns=...)`, `astype`, column reordering keep the index; `merge` (which always returns a
+    fresh 0..n-1 index unless it merges ON the index), `reset_index` and `concat(ignore_index=True)` do not."""
+    KEEP = {"join", "rename", "assign", "astype", "copy", "fillna", "sort_index", "reindex", "infer_objects", "convert_dtypes", "loc", "iloc"}
+    n = 0
+    for cls_ in ("Module", "View"):
+        for nm, fi in repo.cls(cls_).methods.items():
+            if nm in ("__init__",):
+                continue
+            ex = idx.expander(repo, fi)
+            for s_ in ex.stores:
+                if not (s_.kind == "attr" and s_.key.name in ("nodes", "edges") and _is_self(s_.base) and s_.value is not None):
+                    continue
+                tbl = s_.key.name
+                own = T.find(s_.value, lambda x: x.op == "attr" and x.name == tbl and x.args and _is_self(x.args[0]))
+                if own is None:
+                    continue   # built from something else (the constituents, the base): not a re-derivation
+                n += 1
+                # operations applied along the receiver spine from the table itself up to the stored value
+                loses = None
+                for x in s_.value.walk():
+                    if x.op != "mcall" or not x.args:
+                        continue
+                    spine = x.args[0]
+                    while spine.op in ("mcall", "sub", "attr") and spine.args and not (spine.op == "attr" and spine.name == tbl and _is_self(spine.args[0])):
+                        spine = spine.args[0]
+                    if not (spine.op == "attr" and spine.name == tbl):
+                        continue
+                    if x.name == "merge" and not (x.kw.get("left_index") is not None and x.kw["left_index"].op == "const" and x.kw["left_index"].name is True):
+                        loses = loses or x
+                    if x.name == "reset_index":
+                        loses = loses or x
+                cat = T.find(s_.value, lambda x: x.op == "mcall" and x.name == "concat" and x.kw.get("ignore_index") is not None and
+                             x.kw["ignore_index"].op == "const" and x.kw["ignore_index"].name is True)
+                loses = loses or cat
+                restored = T.find(s_.value, lambda x: x.op == "mcall" and x.name in ("set_index", "set_axis")) is not None
+                col.check(loses is None or restored, R, fi, f"{cls_}.{nm}: `self.{tbl}` re-derived from itself keeps its row labels",
+                          "label-preserving operations only",
+                          f"`self.{tbl}` becomes `{s_.value.short(90)}`: `{loses.name if loses is not None else ''}` returns rows labelled 0..n-1, but the labels of "
+                          f"a view's {tbl} are the global row numbers that `set`, `make_trainable` and child views address the base with "
+                          f"(on `net.TestSynapse` with interleaved types, edges [1, 3] become [0, 1])", node=s_.node)
+    col.info["table_rederivations_checked"] = n
